@@ -47,6 +47,10 @@ type unitWithSender struct {
 // forged unit make the node ignore every honest unit of the message that arrives later.
 var errFirstUnitInvalid = errors.New("couldn't validate first unit received")
 
+// errMessageFinalized: the message was finalized between ProcessMessage's look at the finalized
+// cache and its look-up of the subprocessor; the unit is ignored like any unit of a finished message.
+var errMessageFinalized = errors.New("message already finalized")
+
 type subprocessor struct {
 	scheduler       *Scheduler
 	localPeer       peer.ID
@@ -301,6 +305,9 @@ type Processor struct {
 	// to avoid processing units already finalized
 	finalized *timecache.TimeCache[messageKey]
 
+	// subMu guards subProcessors and orders it with the finalized cache: ProcessMessage (the
+	// caller's goroutine) looks up and creates entries, Run (its own goroutine) deletes them
+	subMu         sync.Mutex
 	subProcessors map[messageKey]chan<- unitWithSender
 	// channel through which subprocessors signal they have finalized execution
 	subProcessorsFinalized chan finalizedSubprocessor
@@ -417,6 +424,9 @@ func (p *Processor) ProcessMessage(
 	// non blockingly. This also means we have two go routines for sub processor rather than just
 	// a single one.
 	unitChan, err := p.subprocessorChannel(ctx, &key, scheduler)
+	if errors.Is(err, errMessageFinalized) {
+		return nil
+	}
 	if err != nil {
 		return fmt.Errorf("couldn't get processor channel for key: %w", err)
 	}
@@ -499,9 +509,19 @@ func (p *Processor) subprocessorChannel(
 	key *messageKey,
 	scheduler *Scheduler,
 ) (chan<- unitWithSender, error) {
+	p.subMu.Lock()
+	defer p.subMu.Unlock()
+
 	unitChan, ok := p.subProcessors[*key]
 	if ok {
 		return unitChan, nil
+	}
+
+	// The message may have been finalized since the caller looked at the cache (finalize runs in
+	// Run's goroutine): checked again under the lock, so that no unit of a finished message starts
+	// a second subprocessor for it.
+	if p.finalized.Get(key) {
+		return nil, errMessageFinalized
 	}
 
 	unitChan, err := p.createSubprocessor(ctx, key, scheduler)
@@ -514,13 +534,18 @@ func (p *Processor) subprocessorChannel(
 // discard forgets a subprocessor without marking its message as finalized.
 func (p *Processor) discard(key *messageKey) {
 	p.decreaseTask(key.Publisher)
+	p.subMu.Lock()
+	defer p.subMu.Unlock()
 	delete(p.subProcessors, *key)
 }
 
 func (p *Processor) finalize(key *messageKey) {
 	p.decreaseTask(key.Publisher)
-	delete(p.subProcessors, *key)
+	p.subMu.Lock()
+	defer p.subMu.Unlock()
+	// cached before the subprocessor is forgotten, both under the lock: see subprocessorChannel
 	p.finalized.Add(key)
+	delete(p.subProcessors, *key)
 }
 
 func (p *Processor) increaseTasks(publisher peer.ID) error {
